@@ -30,6 +30,8 @@ ONE = {
     'C07c': 'results of a worker already declared dead are collected again (plain else: instead of the not-closed check): the input is also retried, so its result appears twice',
     'C09c': 'cleanup_worker only waits for a worker whose id is in _closed: a process whose end run() registered but which has not exited survives close()',
     'C03c': 'ProcessWorker._run reports success from an else: clause of the try (same slip as C16b, found independently for C03)',
+    'C12c': 'the SIGTERM handler also kills the helper process of every registered context: the workers created inside a context lose the only process that would stop them and outlive the server',
+    'C16c': 'ProcessWorker._get_result takes over the reported user_state only when it is not None: a child whose last assignment is None leaves the parent with the stale value',
     'C19b': 'active_children() prunes in two critical sections: a registration in between is lost',
 }
 for d in sorted(glob.glob('/verif/seeded/*/')):
